@@ -835,6 +835,7 @@ def curvedgen_unit():
         Inst('GeoRing.bounding_coords', 'wedgeRing', [('self', 'Ring')], 'Except List C', kw=kw),
         Inst('GeoCircle.bounds', 'circleBounds', [('self', 'Circle')], 'Tuple4 N'),
         Inst('GeoEllipse.bounds', 'ellipseBounds', [('self', 'Ellipse')], 'Tuple4 N'),
+        Inst('GeoEllipse.circumscribing_circle', 'ellipseCircle', [('self', 'Ellipse')], 'Prod C N'),
     ]
     for t in ('Circle', 'Ellipse', 'Ring'):
         py2lean.LEAN_TYPE.setdefault(t, 'Unit')
@@ -870,6 +871,17 @@ def curvedgen_unit():
             return Val(f'({name} {args[0].text} {num(args[1])} {num(args[2])})', 'C')
         return f
 
+    def geocircle(tr, args):
+        # `GeoCircle(center, radius, dt=self.dt)`: the circle is its (centre, radius) pair
+        if [x.typ for x in args] != ['C', 'N']:
+            raise Unsupported('GeoCircle(' + ', '.join(x.typ for x in args) + ')')
+        return Val(f'({args[0].text}, {args[1].text})', 'Prod C N')
+
+    def keywords(tr, e):
+        f = e.func
+        return isinstance(f, py2lean.ast.Name) and f.id == 'GeoCircle' and [k.arg for k in e.keywords] == ['dt'] \
+            and py2lean.ast.unparse(e.keywords[0].value) == 'self.dt'
+
     def method(tr, recv, attr, args):
         # `kwargs.get('k')`: the requested sample count (0 when absent)
         if recv.typ == 'KwK' and attr == 'get' and len(args) == 1 and isinstance(args[0], py2lean.ast.Constant) and args[0].value == 'k':
@@ -888,8 +900,9 @@ def curvedgen_unit():
                 header='open GV Num\nvariable {α : Type} [Num α]', attr_types=attr,
                 intrinsics={'math.sin': fn1('Num.sin'), 'math.cos': fn1('Num.cos'), 'math.sqrt': fn1('Num.sqrt'),
                             'math.radians': fn1('GV.Sphere.radians'), 'math.ceil': ceil,
-                            'inverse_haversine_radians': dest('dest'), 'inverse_haversine_degrees': dest('destDeg')},
-                hooks={'isinstance': lambda typ: None, 'curved_gen': True, 'float_as_int': True, 'method': method,
+                            'inverse_haversine_radians': dest('dest'), 'inverse_haversine_degrees': dest('destDeg'),
+                            'GeoCircle': geocircle},
+                hooks={'isinstance': lambda typ: None, 'curved_gen': True, 'float_as_int': True, 'method': method, 'keywords': keywords,
                        'prune_loop_params': True, 'local_type': lambda qual, name: 'List C',
                        'decorators': {'GeoCircle.centroid': ['property'], 'GeoEllipse.centroid': ['property']},
                        'constants': {'math.pi': ('Num.pi', 'N')}},
